@@ -129,7 +129,9 @@ inductive SendResult where
 def errorCaller (r : Req) : Caller :=
   { req := r, assigned := none, chan := { queue := [.errOther], txClosed := true } }
 
-def send (s : State) (r : Req) (draws : List Id) : Outcome (State × SendResult) :=
+/-- `encodable`: does `request.to_vec()` succeed (a TXT character-string over 255 octets, for one, does not) -/
+def send (s : State) (r : Req) (draws : List Id) (encodable : Bool := true) :
+    Outcome (State × SendResult) :=
   if s.isShutdown then .panic "can not send messages after stream is shutdown"
   else if (s.caller? r).isSome then .ok (s, .bad)
   else if s.active.length ≥ s.maxActive then
@@ -138,7 +140,9 @@ def send (s : State) (r : Req) (draws : List Id) : Outcome (State × SendResult)
     match nextId s.activeIds draws with
     | none => .ok ({ s with callers := s.callers ++ [errorCaller r] }, .err)
     | some id =>
-      if s.outQ ≥ OUT_CAP then
+      -- `match request.to_vec() { Err(error) => return NetError::from(error).into() }`: nothing registered
+      if !encodable then .ok ({ s with callers := s.callers ++ [errorCaller r] }, .err)
+      else if s.outQ ≥ OUT_CAP then
         .ok ({ s with callers := s.callers ++ [errorCaller r] }, .err)
       else
         .ok ({ s with
@@ -248,7 +252,7 @@ def cancel (s : State) (r : Req) : State :=
 /-! ### histories -/
 
 inductive Op where
-  | send (r : Req) (draws : List Id)
+  | send (r : Req) (draws : List Id) (encodable : Bool := true)
   | deliver (f : Frame)
   | poll
   | recv (r : Req)
@@ -260,7 +264,7 @@ inductive Op where
 
 /-- one step; a panicking `send` (after shutdown) leaves the state as it was -/
 def step (s : State) : Op → State
-  | .send r draws => match send s r draws with
+  | .send r draws enc => match send s r draws enc with
     | .ok (s', _) => s'
     | _ => s
   | .deliver f => { s with inbox := s.inbox ++ [f] }
